@@ -48,6 +48,10 @@ def main():
         ls = list(range(nlin)) if chk.thorough else sorted(set(list(range(0, min(nlin, 8))) + list(range(8, nlin, max(1, nlin // 6)))))
         for k in ls:
             gs.append({"tag": "C07.lin", "runs": [dict(b, lin_fault=("lin", None, k))]})
+        # a component undefined exactly at the starting point: the dedicated initial-point error, whatever the component
+        comps = ["obj", "obj_grad", "cons", "cons_jac", "lag_hess"]
+        for comp in (comps if chk.thorough else [comps[len(gs) % 5], "lag_hess"]):
+            gs.append({"tag": "C07.atstart", "runs": [dict(b, fault=("atstart", comp, ["nan", "inf"][len(gs) % 2]))]})
         for t in range(3 if chk.thorough else 1):
             gs.append({"tag": "C07.region", "runs": [dict(b, fault=("region", 0, float(rng.uniform(-1.0, 2.0)),
                                                                    [None, "obj", "cons", "lag_hess"][(t + len(gs)) % 4], "nan"))]})
